@@ -518,6 +518,11 @@ pub fn check(opts: &CheckOpts) -> i32 {
         }
     }
 
+    for (k, n) in &agg.skip_reasons {
+        if k.starts_with("HARNESS") {
+            harness_errors.push(format!("{} ({} runs)", k, n));
+        }
+    }
     let wall = t0.elapsed().as_secs_f64();
     let distinct: HashSet<u64> = agg.nontrivial_hashes.iter().copied().collect();
     let distinct_traces: HashSet<u64> = agg.trace_hashes.iter().copied().collect();
